@@ -70,8 +70,19 @@ def validate(traces, scratch, nproc=None, chunk=400, timeout=1800):
                       separators=(",", ":"))
         res = run_tlc("TraceObs", "TraceObs.cfg", scratch, env={"TRACES": path}, workers=2, timeout=timeout, heap="3g")
         os.unlink(path)
-        if res.timed_out or not res.ok:
-            raise MachineryError("TraceObs run failed rc=%s:\n%s" % (res.rc, res.out[-3000:]))
+        if res.timed_out:
+            raise MachineryError("TraceObs timed out")
+        if not res.ok:
+            # the monitor is meant to be total; if a (grossly malformed) trace still breaks its evaluation, isolate that
+            # trace instead of giving up on the whole run: it gets the pseudo clause H.monitor_error
+            if len(ch) == 1:
+                if "evaluating" in res.out or "Attempted to" in res.out:
+                    return [(ch[0]["id"], ["0:H.monitor_error"])], res.distinct
+                raise MachineryError("TraceObs run failed rc=%s:\n%s" % (res.rc, res.out[-3000:]))
+            mid = len(ch) // 2
+            a, sa = one((n * 2 + 1000000, ch[:mid]))
+            b, sb = one((n * 2 + 1000001, ch[mid:]))
+            return a + b, sa + sb
         verdicts = {}
         for v in res.printed():
             if isinstance(v, dict) and "verdict" in v:
